@@ -110,6 +110,19 @@ func TestReplay_Tags(t *testing.T) {
 			}
 		}
 	}
+	for _, m := range []map[string]string{{"a": "`x`", "z": "plain"}, {"doc": "use `x` here", "json": "name"}, {"a": "plain", "z": "`x`"}, {"a": "q\"q", "m": "`", "z": "\\"}} {
+		src := fmt.Sprintf("%#v", Tag(m))
+		lit, err := strconv.Unquote(src)
+		if err != nil {
+			t.Errorf("FAILING INPUT: Tag(%q) renders %s, not a string literal: %v", m, src, err)
+			continue
+		}
+		for k, v := range m {
+			if got, ok := reflect.StructTag(lit).Lookup(k); !ok || got != v {
+				t.Errorf("FAILING INPUT: Tag(%q) renders %s; Lookup(%q) = %q, %v; want %q", m, src, k, got, ok, v)
+			}
+		}
+	}
 	if out := fmt.Sprintf("%#v", Id("x").Tag(map[string]string{})); out != "x" {
 		t.Errorf("FAILING INPUT: an empty Tag renders %q", out)
 	}
